@@ -526,9 +526,10 @@ theorem flush0_thm (Z : Setting) (hZ : Z.OK) (st st1 : St) (ok : Bool) (os : Ses
   simp only [if_true]
   exact stepout_of_flush Z hZ st st1 os rx hr hsim hatt hres
 
-/-! ### the step lemmas from the ONE remaining hypothesis -/
+/-! ### the step lemmas from the block path (itself a theorem: `blockStep_of_contract`, Lemmas/SessionBlock.lean) -/
 
-/-- THE REMAINING HYPOTHESIS of the link: the block path `push_to_block2 ~ pushCore` (statement of `Steps.block2B_step`) -/
+/-- the block path `push_to_block2 ~ pushCore` (statement of `Steps.block2B_step`); PROVED under the codec contract `CodecDec`:
+    `blockStep_of_contract` (Lemmas/SessionBlock.lean) -/
 def BlockStep (Z : Setting) : Prop :=
   ∀ (st st1 : St) (b : Bool) (os : Session.OState) (rx : Session.ORx) (p : Pkt) (s : Session.Sym),
     Good Z st → RelB Z st os → st.state = .receiving → os.obj = some rx → SimB Z st rx → Head st → GenEv Z p s →
